@@ -13,6 +13,9 @@ V5 = ["getPubKey", "sign_hash", "sign_legacy", "sign_segwit", "advanceBlockchain
       "resetAdvanceBlockchain", "blockchainState", "blockchainParameters", "signerHeartbeat", "uiHeartbeat",
       "uiHeartbeat@uihb"]     # the same command arriving while the device already is in UI-heartbeat mode
 V1 = ["getPubKey", "sign_v1"]
+# the same signer commands through HSM2DongleSGX over the TCP transport (no UI, hence no uiHeartbeat)
+V5_SGX = ["getPubKey", "sign_hash", "sign_legacy", "advanceBlockchain", "updateAncestorBlock",
+          "resetAdvanceBlockchain", "blockchainState", "blockchainParameters"]
 
 NAMED = [0x6A87, 0x6A88, 0x6A89, 0x6A8A, 0x6A8B, 0x6A8C, 0x6A8D, 0x6A8E, 0x6A8F, 0x6A90, 0x6A91, 0x6A92,
          0x6A93, 0x6A94, 0x6A95, 0x6A96, 0x6A97, 0x6A98, 0x6A99] + list(range(0x6B87, 0x6BA2)) + \
@@ -56,11 +59,12 @@ def step_kind(cmd, apdu):
 class Bench:
     """One long-lived manager per protocol version; state is reset between runs."""
 
-    def __init__(self, version):
+    def __init__(self, version, platform="ledger"):
         self.version = version
-        self.world, self.proto = mgr.serving_manager(version=version)
+        self.platform = platform
+        self.world, self.proto = mgr.serving_manager(version=version, platform=platform)
         self.reqs = {}
-        for c in (V5 if version == 2 else V1):
+        for c in ((V5 if platform == "ledger" else V5_SGX) if version == 2 else V1):
             rng = random.Random("c04:" + c)
             req = reqs.make(c.split("@")[0], rng, 5 if version == 2 else 1)[0]
             if c == "advanceBlockchain":
@@ -122,10 +126,10 @@ class Bench:
 _BENCH = {}
 
 
-def _bench(version):
-    if version not in _BENCH:
-        _BENCH[version] = Bench(version)
-    return _BENCH[version]
+def _bench(version, platform="ledger"):
+    if (version, platform) not in _BENCH:
+        _BENCH[(version, platform)] = Bench(version, platform)
+    return _BENCH[(version, platform)]
 
 
 def cell(version, c, step, kind, sw, out):
@@ -136,8 +140,9 @@ def cell(version, c, step, kind, sw, out):
 
 
 def work(task):
-    version, c, idx, step, sws, others = task
-    b = _bench(version)
+    version, c, idx, step, sws, others = task[:6]
+    plat = task[6] if len(task) > 6 else "ledger"
+    b = _bench(version, plat)
     out = []
     for sw in sws:
         out.append(cell(version, c, step, "sw", sw, b.run(c, idx, ("sw", sw))))
@@ -151,6 +156,8 @@ def work(task):
         else:
             r = b.run(c, idx, (k,))
         out.append(cell(version, c, step, k, 0, r))
+    for x in out:
+        x["plat"] = plat
     return (version, c, idx), out
 
 
@@ -225,6 +232,22 @@ def run(ctx):
                 for i in range(0, len(sws), 4096):
                     tasks.append((version, c, idx, st, sws[i:i + 4096],
                                   ["timeout", "write", "read", "wrongop"] if i == 0 else []))
+    # the SGX platform: HSM2DongleSGX over the TCP transport (0x6Cxx is an error there and 0x61xx starts
+    # a GET RESPONSE loop inside the transport: both are left to the HID pass, whose reference table they belong to)
+    b = _bench(2, "sgx")
+    n_sgx = 0
+    for c in V5_SGX:
+        seen_kind = {}
+        for idx, st in enumerate(b.steps[c]):
+            first_of_kind = st not in seen_kind
+            seen_kind[st] = True
+            if not first_of_kind and ctx.quick:
+                continue
+            base = NAMED + BOUNDARY + ([ctx.rng.randrange(0x10000) for _ in range(400)] if full else [])
+            sws = sorted({w for w in (base if (full or first_of_kind) else base[::3]) if (w & 0xFF00) not in (0x6C00, 0x6100)})
+            tasks.append((2, c, idx, st, sws, ["timeout", "wrongop"], "sgx"))
+            n_sgx += 1
+    res.coverage["exchange_indices_sgx"] = n_sgx
     res.coverage["exchange_indices"] = n_idx
     cells = []
     if full:
@@ -251,9 +274,10 @@ def run(ctx):
     bad_cells = [(c, fails[c["id"]]) for c in cells if c["id"] in fails]
     res.add_validation(stats, len(cells) - len(bad_cells))
     for c, clause in bad_cells:
-        sig = "%s|%s cmd=%s step=%s kind=%s%s" % (
+        sig = "%s|%s cmd=%s step=%s kind=%s%s%s" % (
             clause, "v1" if c["v1"] else "v5", c["cmd"], c["step"], c["kind"],
-            (" sw=%s" % sw_class(c["sw"])) if c["kind"] == "sw" else "")
+            (" sw=%s" % sw_class(c["sw"])) if c["kind"] == "sw" else "",
+            " plat=sgx" if c.get("plat") == "sgx" else "")
         res.violation(sig, "%s: %s at step %s, outcome %s%s -> reply code %s%s" % (
             clause, c["cmd"], c["step"], c["kind"], (" 0x%04X" % c["sw"]) if c["kind"] == "sw" else "",
             c["code"] if c["hascode"] else "<none>", ", manager stops" if c["shutdown"] else ""), {"cell": c})
